@@ -346,7 +346,7 @@ theorem C12_review_visits_reordered (σ : Schema) (P C : Nat) (hP : (σ.row P).w
     (hq : okTree (reorder σ) q = true) (values : List (Nat × Nat)) :
     (walk σ (cbFind P) q []).log.map Visit.key = expected (reorder σ) q false false
     ∧ (walk σ (cbFillMap P C values) q ()).log.map Visit.key = expected (reorder σ) q false false := by
-  have hP' : ((reorder σ).row P).walk = [] := by rw [sameWalk_reorder σ P]; exact hP
+  have hP' : ((reorder σ).row P).walk = [] := by rw [(sameWalk_reorder σ P).1]; exact hP
   have h := C12_visits (reorder σ) P C hP' q hq values
   rw [walk_congr (reorder σ) σ (sameWalk_reorder σ) (cbFind P) q [],
       walk_congr (reorder σ) σ (sameWalk_reorder σ) (cbFillMap P C values) q ()] at h
